@@ -547,11 +547,12 @@ class OperationTexts(Stream):
             if kind == "suffix_chain":
                 # a note written as a library symbol followed by two or three rhythmic suffixes (s0.e3.e5, s0.t7.t7.t7): its text reads back equal
                 yield {"kind": kind, "base": rng.choice(["s0", "s4", "h3", "c1", "r", "l", "su1"]),
-                       "sufs": [rng.choice(["t7", "e7", "s5", "t3", "e3", "q3", "h5", "t5", "s7", "qd", "ed", "e5", "q7"]) for _ in range(rng.choice([2, 2, 3]))]}
+                       "sufs": [rng.choice(["t7", "e7", "s5", "t3", "e3", "q3", "h5", "t5", "s7", "qd", "ed", "e5", "q7"]) for _ in range(rng.choice([2, 2, 3]))]
+                               if i != 7 else ["t7", "t7", "t7"]}            # the first case is the listed finding's own example, whatever the seed
                 continue
             if kind == "empty_text":
                 # objects without a note: a chord holding a part emptied by slicing (melody[k:]), the empty score (score * 0)
-                yield {"kind": kind, "which": rng.choice(["part", "part", "score"]), "elem": rng.randrange(7),
+                yield {"kind": kind, "which": rng.choice(["part", "part", "score"]) if i > 17 else ["part", "score"][i // 9 % 2], "elem": rng.randrange(7),
                        "melody": [dict(rand_note(rng, families=["s", "h", "r", "l", "c"]), tags=[]) for _ in range(rng.randrange(1, 4))]}
                 continue
             if kind == "empty_part":
